@@ -423,6 +423,32 @@ class World:
                 except BaseException as e:  # noqa: BLE001
                     self.events.append((name, "left", sid, self.classify(e), self.probe() == before))
                     raise
+            elif k == "genenter":
+                # a generator holds a state update open across its yields; this task advances it to the first yield (the
+                # update is then in force for this task) and closes it when it leaves
+                states = op[1]
+
+                async def holder():
+                    with ctx.updated(*mk(states)):
+                        yield 1
+                        yield 2
+
+                self.held = holder()
+                await self.held.__anext__()
+                try:
+                    await self.block(name)
+                finally:
+                    try:
+                        await self.held.aclose()
+                    except (ValueError, RuntimeError):
+                        pass
+            elif k == "genclose":
+                # ANOTHER task closes that generator: the update's exit runs here, where it was never entered
+                try:
+                    await self.held.aclose()
+                    self.events.append((name, "try", "foreign-closed"))
+                except ValueError:
+                    self.events.append((name, "try", "refused"))
             elif k == "reenter":
                 # a second attempt to enter the same async scope object (caught by the code that tries)
                 kind, sid, obj = self.prepared
